@@ -4,7 +4,7 @@ import sys, os, json
 sys.path.insert(0, os.path.dirname(os.path.abspath(__file__)))
 import vlib
 mod, cfg, trace = sys.argv[1:4]
-ctx = vlib.Ctx("DBG", "quick", 1)
+ctx = vlib.Ctx("DBG%d" % os.getpid(), "quick", 1)
 ok, maxl, r = vlib.validate_trace_file(ctx, os.path.abspath(mod), os.path.abspath(cfg), os.path.abspath(trace))
 recs = vlib.read_ndjson(trace)
 print("accepted" if ok else "REJECTED", "maxl", maxl, "of", len(recs), "kind", r.kind, "inv", r.violated, f"{r.wall:.1f}s", r.distinct, "states")
